@@ -105,6 +105,13 @@ class Adapter:
         elif got is not None:
             got = tuple(got)
         if got != exp:
+            if e.get("excused") and not e["empty"]:
+                # a key carrying the signed form-switch taint: code that repairs the
+                # finding returns what the statement demands (exp) -- accept that too
+                alt = ({k: self.expect(e["name"], v) for k, v in e["exp"].items()} if per
+                       else self.expect(e["name"], e["exp"]))
+                if got == alt:
+                    return None
             return "%s(%r) -> %r, specification predicts %r" % (fn.__name__, kw, got, exp)
         return None
 
